@@ -35,6 +35,8 @@
  * then the case lines are answered as usual (wrappers passing through).  A crypto_aes_key_expand that
  * returns NULL is a reported failure: it is retried once.
  */
+/* single cases of this driver may run over gigabytes (the > 2^32-byte stream, the very long messages) */
+#define DRV_LINE_CPU_S 300
 #include "drv_common.h"
 
 #include <assert.h>
